@@ -167,7 +167,7 @@ impl RtuParser {
 //@|    ensures r == spec_length_mode(self.parser_type, function_code),
 //@entry| assert(function_code & 0x80 != 0 <==> function_code >= 0x80) by (bit_vector);
 
-//@fn rodbus/src/serial/frame.rs | RtuParser::parse | tags=C06,C07,C17,C20
+//@fn rodbus/src/serial/frame.rs | RtuParser::parse | tags=C06,C07,C17,C20 | attr=#[verifier::rlimit(80)]
 //@|    requires old(self).wf(old(cursor)@), old(cursor).wf(),
 //@|    ensures final(cursor).wf(), final(self).kind() == old(self).kind(),
 //@|        r is Ok ==> final(self).wf(final(cursor)@),
